@@ -716,18 +716,28 @@ class Evaluator:
             it = self.expr(st.iter, env, fr)
             items = _iter_items(it)
             if items is not None:
-                if _has_break(st.body):
-                    _havoc(st.body, env, 'loop with break')
-                    return True
+                has_break = _has_break(st.body)
+                snapshot = _copy_env(env) if has_break else None
+                broke = False
                 for item in items:
                     self.assign(st.target, item, env, fr)
-                    ctx = {'continues': [], 'pc_len': len(pc)}
+                    ctx = {'continues': [], 'breaks': [], 'pc_len': len(pc)}
                     fr.loops.append(ctx)
                     nret = len(fr.returns)
                     fell = self.block(st.body, env, pc, fr)
                     fr.loops.pop()
                     body_pc = pc[ctx['pc_len']:]
                     del pc[ctx['pc_len']:]
+                    if ctx['breaks']:
+                        bpc, benv = ctx['breaks'][-1]
+                        if len(ctx['breaks']) == 1 and len(bpc) == ctx['pc_len'] and not ctx['continues'] and not fell:
+                            # a break reached under no symbolic condition: the loop ends here, `else` is skipped
+                            env.clear(); env.update(benv)
+                            broke = True
+                            break
+                        env.clear(); env.update(snapshot)
+                        _havoc(st.body, env, 'loop with a conditional break')
+                        return True
                     if ctx['continues']:
                         if not fell:
                             cpc, cenv = ctx['continues'][-1]
@@ -745,6 +755,8 @@ class Evaluator:
                     elif len(fr.returns) > nret and body_pc:
                         # an early return inside the body constrains the rest of the function
                         pc.extend(body_pc)
+                if not broke and st.orelse:
+                    return self.block(st.orelse, env, pc, fr)
                 return True
             _havoc([st], env, 'loop over symbolic iterable')
             return True
@@ -791,6 +803,8 @@ class Evaluator:
                 fr.loops[-1]['continues'].append((list(pc), _copy_env(env)))
             return False
         if isinstance(st, ast.Break):
+            if fr.loops and 'breaks' in fr.loops[-1]:
+                fr.loops[-1]['breaks'].append((list(pc), _copy_env(env)))
             return False
         raise AnalysisError('VG', fr.fi.qualname, f'statement kind {type(st).__name__}')
 
@@ -821,6 +835,12 @@ class Evaluator:
                     return None
                 if isinstance(a, (Tup, DictV)):
                     return Const(False), handler       # float(list) always raises TypeError
+                if isinstance(a, Const) and isinstance(a.v, str):
+                    try:
+                        (float if node.func.id == 'float' else int)(a.v)
+                        return Const(True), handler
+                    except ValueError:
+                        return Const(False), handler
                 return truthy(App('converts:' + node.func.id, (a,))), handler
         return None
 
@@ -1078,7 +1098,12 @@ class Evaluator:
                 left = right
             if len(parts) == 1:
                 return parts[0]
-            return BoolT('and', tuple(parts))
+            if any(isinstance(p_, Const) and p_.v is False for p_ in parts):
+                return Const(False)
+            parts = [p_ for p_ in parts if not (isinstance(p_, Const) and p_.v is True)]
+            if not parts:
+                return Const(True)
+            return parts[0] if len(parts) == 1 else BoolT('and', tuple(parts))
         if isinstance(n, ast.IfExp):
             c = truthy(self.expr(n.test, env, fr))
             if isinstance(c, Const):
@@ -1468,6 +1493,13 @@ class Evaluator:
                     return Const(None)
                 env[n.func.value.id] = Unknown('list extended by symbolic iterable')
                 return Const(None)
+            if isinstance(base, Tup) and base.kind == 'list' and isinstance(n.func.value, ast.Name) \
+                    and n.func.attr == 'insert' and len(args) == 2 and isinstance(args[0], sp.Integer):
+                k = int(args[0])
+                items = list(base.items)
+                items.insert(k, args[1])
+                env[n.func.value.id] = Tup(tuple(items), 'list')
+                return Const(None)
             if isinstance(base, Tup) and base.kind == 'set' and n.func.attr == 'pop' and not args \
                     and len(base.items) == 1 and isinstance(n.func.value, ast.Name):
                 env[n.func.value.id] = Tup((), 'set')
@@ -1575,6 +1607,8 @@ class Evaluator:
         if isinstance(base, DictV):
             if meth == 'update':
                 for a in args:
+                    if (isinstance(a, Const) and a.v in ('', None)) or (isinstance(a, Tup) and not a.items):
+                        continue          # updating with an empty iterable changes nothing
                     if isinstance(a, DictV):
                         base.layers += a.copy().layers
                     else:
@@ -1634,6 +1668,8 @@ class Evaluator:
                     u = UNIT[u.v]
                 if is_num(u):
                     return _Q(base, u)
+            if meth == 'is_integer' and not args and base.is_number:
+                return Const(float(base) == int(float(base)))
             if meth in ('item', 'copy', 'astype', 'flatten', 'ravel') :
                 return base if meth in ('item', 'copy') else App('meth:' + meth, (base,) + tuple(args))
             if meth in ('min', 'max', 'mean') and not args:
@@ -1685,6 +1721,15 @@ class Evaluator:
                     items = list(a[0].items)
                 if len(items) >= 2 and all(is_num(x) for x in items):
                     return (sp.Max if short == 'max' else sp.Min)(*items)
+            if short in ('float', 'int') and len(a) == 1 and isinstance(a[0], Const) and isinstance(a[0].v, str):
+                try:
+                    v_ = float(a[0].v) if short == 'float' else int(a[0].v)
+                    if v_ == v_ and abs(v_) != float('inf'):
+                        return sp.Float(v_) if short == 'float' else sp.Integer(v_)
+                except ValueError:
+                    pass
+            if short == 'int' and len(a) == 1 and isinstance(a[0], sp.Float) and float(a[0]) == int(float(a[0])):
+                return sp.Integer(int(float(a[0])))
             if short in ('float', 'int') and len(a) == 1 and is_num(a[0]):
                 if short == 'int' and not isinstance(a[0], (sp.floor, sp.ceiling, sp.Integer)):
                     return sp.Function('int')(a[0])
@@ -1874,6 +1919,13 @@ def _py_const(t):
         return t.v
     if isinstance(t, sp.Integer):
         return int(t)
+    if isinstance(t, sp.Float):
+        return float(t)
+    if isinstance(t, ExtRef) and t.name.startswith('re.') and t.name[3:].isupper():
+        import re as _re
+        v = getattr(_re, t.name[3:], None)
+        if v is not None:
+            return int(v)          # regex flags
     if isinstance(t, Tup) and t.kind != 'array':
         xs = [_py_const(i) for i in t.items]
         if all(x is not _NOCONST for x in xs):
@@ -1909,6 +1961,13 @@ def _fold_regex_method(base, meth, args):
                 return o
             if meth in ('findall', 'split', 'sub'):
                 return _term_of_py(getattr(rx, meth)(*cargs))
+            if meth == 'finditer':
+                out = []
+                for mt in rx.finditer(*cargs):
+                    o = Obj('rematch', {}, None)
+                    o.pymatch = mt
+                    out.append(o)
+                return Tup(tuple(out), 'list')
         if base.cls == 'rematch' and meth in ('groups', 'group', 'span', 'start', 'end', 'groupdict'):
             r = getattr(base.pymatch, meth)(*cargs)
             if isinstance(r, dict):
@@ -2139,6 +2198,8 @@ def _nth(x, i):
 def _iter_items(v):
     if isinstance(v, Tup):
         return list(v.items)
+    if isinstance(v, Const) and isinstance(v.v, str):
+        return [Const(ch) for ch in v.v]
     if isinstance(v, Obj) and isinstance(v.fields.get('__items__'), Tup):
         return list(v.fields['__items__'].items)
     if isinstance(v, Obj) and v.cls == 'PixCoord' and isinstance(v.fields.get('x'), Tup) and isinstance(v.fields.get('y'), Tup) \
